@@ -890,6 +890,14 @@ def get_parsed_type(obj: model.Documentable) -> Optional[ParsedDocstring]:
     Get the type of this attribute as parsed docstring.
     """
     parsed_type = obj.parsed_type
+    if parsed_type is None and isinstance(obj, model.Attribute):
+        # A "type" field in the variable's own docstring: the type is asked for
+        # before format_docstring() has handled the fields.
+        ensure_parsed_docstring(obj)
+        if obj.parsed_docstring is not None:
+            for field in obj.parsed_docstring.fields:
+                if field.tag() == 'type':
+                    parsed_type = obj.parsed_type = field.body()
     if parsed_type is not None:
         return parsed_type
 
